@@ -1,4 +1,5 @@
 import QR.Model.Threads
+import QR.Proofs.Pinned
 /-
 C19 - independent objects are thread-safe under every interleaving of the shared accesses.
 Atomicity granularity (single dict operations under the GIL) and completeness of the shared-state inventory are
@@ -138,5 +139,9 @@ example (blankOf : Nat → Mat) (progs : List (List Nat)) :
     constructor
     · intro e he; cases he
     · intro hc; cases hc
+
+/-- the Python functions this property's model mirrors have, in /repo's current working tree, exactly the normalised
+    ASTs the model was written and validated against (fingerprints regenerated by T1 on every run) -/
+theorem C19_source_fingerprints : QR.Gen.fp_C19 = QR.Pinned.fp_C19 := by decide
 
 end QR.Props
